@@ -613,6 +613,9 @@ func (vc *FuncVC) explore(st *State, b *ssa.BasicBlock, idx int, prev *ssa.Basic
 				var next []*State
 				for _, s := range res {
 					var resT types.Type = d.call.Signature().Results()
+					if rs := d.call.Signature().Results(); rs.Len() == 1 {
+						resT = rs.At(0).Type()
+					}
 					for _, o := range vc.callCommon(s, d.call, d.args, resT, d.fnv) {
 						next = append(next, o.st)
 					}
